@@ -51,6 +51,19 @@ def showEff : List Effect → String
   | [.next] => "N"
   | _ => "?"
 
+def showKind : DevKind → String
+  | .none => "nil"
+  | .ok => "ok"
+  | .authFail => "auth"
+  | .unknownDedicated => "unk"
+  | .error => "err"
+
+def showInfo : Option RI → String
+  | none => ""
+  | some i => " | [" ++ i.host ++ "] " ++ toString i.qtype ++ " " ++ toString i.qclass ++ " " ++ showB i.remote.is4 ++ " " ++
+      toString i.remote.val ++ " " ++ (match i.asn with | none => "-" | some a => toString a) ++ " " ++ showB i.ecs ++ " " ++
+      showKind i.dev
+
 def step (s : S) : List String → S × String
   | ["reset"] => ({}, "ok")
   | ["gnet", is4, val, bits] =>
@@ -73,10 +86,11 @@ def step (s : S) : List String → S × String
   | ["prule", k, kind, allow, imp, tsel, t, dom] =>
     let p := s.prof (nat! k)
     (s.setProf (nat! k) { p with rules := p.rules ++ [parseRule kind allow imp tsel t dom] }, "ok")
-  | ["req", is4, val, port, qname, qtype, asn, ecs, dev] =>
+  | ["req", is4, val, port, qname, qtype, qclass, asn, ecs, dev] =>
     let o := wrap s.global { addr := { is4 := bool! is4, val := nat! val }, port := nat! port, qname := qname,
-                             qtype := nat! qtype, asn := parseASN asn, ecsBad := bool! ecs, dev := parseDev s dev }
-    (s, o.why ++ " " ++ showEff o.effects ++ " " ++ showB o.err)
+                             qtype := nat! qtype, qclass := nat! qclass, asn := parseASN asn, ecsOk := ecs == "1",
+                             ecsBad := ecs == "2", dev := parseDev s dev }
+    (s, o.why ++ " " ++ showEff o.effects ++ " " ++ showB o.err ++ showInfo o.info)
   | ["gip", is4, val] => (s, showB (s.global.isBlockedIP { is4 := bool! is4, val := nat! val }))
   | ["ghost", host, qt] => (s, showB (s.global.isBlockedHost (if host == "-" then "" else host) (nat! qt)))
   | ["pblk", k, is4, val, asn, qname, qt] =>
